@@ -76,8 +76,8 @@ CHECKS = {
             "partition assignments in OB/FO3/SK/SSE are set through the API and read back after set, set(get()), save+reload and vertex deletion; labels must be preserved under the "
             "renumbering and the stored ranges must partition the triangles.", "3/C17"),
     "C18": ("exploration", "bounded-exhaustive differential testing against naive reference models under ASan/UBSan/libstdc++ assertions",
-            "Every sorted index subset of vectors up to length 7 (10 thorough) for all index types used by callers, all small triangle lists x collapse maps, all strips over a "
-            "4-symbol alphabet up to length 7 (8), plus random vectors at the 16-bit limits are pushed through the real templates and compared with naive models; out-of-container "
+            "Every sorted index subset of vectors up to length 9 with two out-of-range positions (15 thorough) for all index types used by callers, all small triangle lists x collapse maps, all strips over a "
+            "4-symbol alphabet up to length 8 (11), plus random vectors at the 16-bit limits are pushed through the real templates and compared with naive models; out-of-container "
             "accesses abort. Small-scope exhaustive + boundary sizes is the right level for pure index arithmetic.", "3/C18"),
     "C19": ("exploration", "bounded-exhaustive + random differential testing of the real clean-up (through every texture slot kind of API-built models) against a regex-free reference model and statement-derived postconditions",
             "All token sequences up to length 4 (5) over separators, whitespace, dots, letters, ':' and the words textures/data, curated real-world paths and random byte strings up to "
